@@ -336,6 +336,48 @@ pub fn run(tier: Tier) -> i32 {
             }
         }
     });
+    // synthetic tall paths (no tree of that size can be built): for heights h = 20..=33 a leaf with h
+    // hand-made siblings and the root derived by the reference; the path verifies iff h <= 32 (the
+    // deepest tree supported), and any lengthening of a verifying path must be rejected
+    for hgt in 20..=33usize {
+        for index in [0usize, 1, (1usize << (hgt - 1)) - 1, 1usize << (hgt - 1)] {
+            let leaf = format!("tall-{hgt}-{index}").into_bytes();
+            let sib: Vec<Hash> = (0..hgt).map(|l| h(&[b"tall-sibling", &[l as u8], &(index as u64).to_le_bytes()])).collect();
+            let mut acc = ref_leaf(&leaf);
+            let mut i = index;
+            for s in &sib {
+                acc = if i & 1 == 0 { ref_pair(&acc, s) } else { ref_pair(s, &acc) };
+                i >>= 1;
+            }
+            let root = acc;
+            let mut cases: Vec<(&'static str, Vec<Hash>, bool)> = vec![("tall-genuine", sib.clone(), hgt <= 32)];
+            for extra in 1..=3usize {
+                let mut p = sib.clone();
+                for e in 0..extra {
+                    p.push(h(&[b"tall-extra", &[e as u8]]));
+                }
+                cases.push(("tall-proof-lengthened", p, false));
+            }
+            for (class, proof, expect) in cases {
+                evals.fetch_add(1, Ordering::Relaxed);
+                nontrivial.fetch_add(1, Ordering::Relaxed);
+                *classes.lock().unwrap().entry(class).or_default() += 1;
+                let replay = json!({"synthetic_path_height": hgt, "claimed_index": index, "class": class, "proof_len": proof.len()});
+                match catch(|| PlainMerkleTree::check_proof(&leaf, index, &root, &proof)) {
+                    Err(msg) => report.violation(format!("C15:panic:{class}"), format!("verification panicked: {msg}"), replay),
+                    Ok(got) => {
+                        if got != expect {
+                            report.violation(
+                                if expect { "C15:genuine-proof-rejected".to_string() } else { format!("C15:check_proof-accepts:{class}") },
+                                format!("check_proof returned {got} (expected {expect}) for a path of height {hgt} presented with {} proof elements", proof.len()),
+                                replay,
+                            );
+                        }
+                    }
+                }
+            }
+        }
+    }
     // typed instantiation used by repair: double-Merkle tree over slice roots
     let mut typed = 0usize;
     for n in 1..=tier.pick(16usize, 64) {
